@@ -24,10 +24,15 @@ for sid in sorted(os.listdir("/verif/seeded")):
         nviol = len(re.findall(r"^VIOLATION ", c.stdout, re.M))
     finally:
         subprocess.run(["git", "-C", "/repo", "checkout", "--", "."], check=True)
+        # a patch may add files: checkout leaves them behind, so remove exactly the files the patch created
+        for nf in re.findall(r"^diff --git a/(\S+) b/\S+\nnew file mode", open(os.path.join(d, "patch.diff")).read(), re.M):
+            fp = os.path.join("/repo", nf)
+            if os.path.exists(fp):
+                os.remove(fp)
     meta["ran"] = ["git -C /repo apply seeded/%s/patch.diff" % sid,
                    "cd /repo && go build ./... && go build -tags verif ./... && go test -count=1 ./...  -> %s" % ("pass" if tests_ok else "FAIL"),
                    "cd /verif && ./check %s --tier quick  -> exit %d, %d VIOLATION lines, %.0f s" % (pid, c.returncode, nviol, dt),
-                   "git -C /repo checkout -- ."]
+                   "git -C /repo checkout -- .  (+ removal of files the patch added)"]
     meta["caught_by"] = flagged
     meta["detected"] = c.returncode == 1
     json.dump(meta, open(os.path.join(d, "meta.json"), "w"), indent=1)
